@@ -1,5 +1,6 @@
 import JwtModel.V1
 import JwtProofs.Decode
+import Props.CodecRoundTrip
 /-!
 # C19 — the bundled version-1 library is self-consistent
 
